@@ -17,7 +17,7 @@ Section P.
     - destruct l; simpl in *; [reflexivity | lia].
     - destruct l as [|a l']; [reflexivity|].
       cbn [pages_fuel concat]. rewrite IH; [apply firstn_skipn | assumption |].
-      rewrite skipn_length. simpl in *. lia.
+      rewrite skipn_length. cbn [length] in *. lia.
   Qed.
 
   Lemma pages_concat : forall n l, (1 <= n)%nat -> concat (pages n l) = l.
@@ -233,33 +233,35 @@ Section P.
     butler_query c pp keep limit explain rows = (explained explain limit (firstn_opt limit (visible pp keep rows)), false).
   Proof.
     intros c pp keep limit explain rows H1 H2 H3. unfold butler_query, explained.
-    destruct limit as [l|].
-    - cbn in H3. destruct (l <? 0) eqn:E; [apply Z.ltb_lt in E; lia|].
-      cbn [andb]. rewrite execute_exact_p by (auto; cbn; auto). reflexivity.
-    - cbn [andb]. rewrite execute_exact_p by (auto; exact I). reflexivity.
+    destruct limit as [z|].
+    - cbn in H3. destruct (z <? 0) eqn:E; [apply Z.ltb_lt in E; lia|].
+      cbn [andb]. rewrite execute_exact_p by (auto; cbn; auto).
+      match goal with |- context[if ?b then _ else _] => destruct b end; reflexivity.
+    - cbn [andb]. rewrite execute_exact_p by (auto; exact I).
+      match goal with |- context[if ?b then _ else _] => destruct b end; reflexivity.
   Qed.
 
-  Lemma butler_negative_p : forall c pp keep l explain rows, 0 <= raw_page c -> 0 <= factor c -> l < 0 ->
-    butler_query c pp keep (Some l) explain rows =
-      (explained explain (Some l) (firstn (Z.to_nat (- l)) (visible pp keep rows)), - l <? zlen (visible pp keep rows)).
+  Lemma butler_negative_p : forall c pp keep z explain rows, 0 <= raw_page c -> 0 <= factor c -> z < 0 ->
+    butler_query c pp keep (Some z) explain rows =
+      (explained explain (Some z) (firstn (Z.to_nat (- z)) (visible pp keep rows)), - z <? zlen (visible pp keep rows)).
   Proof.
-    intros c pp keep l explain rows H1 H2 H3. unfold butler_query, explained.
-    assert (E : (l <? 0) = true) by (apply Z.ltb_lt; assumption). rewrite E.
+    intros c pp keep z explain rows H1 H2 H3. unfold butler_query, explained.
+    assert (E : (z <? 0) = true) by (apply Z.ltb_lt; assumption). rewrite E.
     rewrite execute_exact_p by (auto; cbn; lia). cbn [firstn_opt andb].
-    set (R := visible pp keep rows). set (n := Z.to_nat (- l)).
-    replace (Z.to_nat (Z.abs l + 1)) with (S n) by lia.
-    assert (Hl : match l with 0 => false | _ => true end = true) by (destruct l; [lia|reflexivity|reflexivity]).
+    set (R := visible pp keep rows). set (n := Z.to_nat (- z)).
+    replace (Z.to_nat (Z.abs z + 1)) with (S n) by lia.
+    assert (Hl : match z with 0 => false | _ => true end = true) by (destruct z; [lia|reflexivity|reflexivity]).
     destruct (Nat.lt_ge_cases n (length R)) as [Hlt|Hge].
-    - assert (Hh : (zlen (firstn (S n) R) =? Z.abs l + 1) = true).
+    - assert (Hh : (zlen (firstn (S n) R) =? Z.abs z + 1) = true).
       { apply Z.eqb_eq. unfold zlen. rewrite firstn_length. lia. }
       rewrite Hh. rewrite removelast_firstn by assumption.
-      replace (- l <? zlen R) with true by (symmetry; apply Z.ltb_lt; unfold zlen; lia).
-      destruct l; try lia; reflexivity.
-    - assert (Hh : (zlen (firstn (S n) R) =? Z.abs l + 1) = false).
+      replace (- z <? zlen R) with true by (symmetry; apply Z.ltb_lt; unfold zlen; lia).
+      cbn [andb]. match goal with |- context[if ?b then _ else _] => destruct b end; reflexivity.
+    - assert (Hh : (zlen (firstn (S n) R) =? Z.abs z + 1) = false).
       { apply Z.eqb_neq. unfold zlen. rewrite firstn_length. lia. }
       rewrite Hh. rewrite !firstn_all2 by lia.
-      replace (- l <? zlen R) with false by (symmetry; apply Z.ltb_ge; unfold zlen; lia).
-      destruct l; try lia; reflexivity.
+      replace (- z <? zlen R) with false by (symmetry; apply Z.ltb_ge; unfold zlen; lia).
+      cbn [andb]. match goal with |- context[if ?b then _ else _] => destruct b end; reflexivity.
   Qed.
 End P.
 
